@@ -1,0 +1,51 @@
+//go:build verif
+
+// Contracts for the deductive checker in /verif (comment-only).
+
+package table
+
+// ---------------------------------------------------------------- published table value
+//@ spec (t *Table) conf() := as(mkiface(t.config.valtag, t.config.valref), TableConfig)
+//@ spec confWf(c TableConfig) :=
+//@      (forall j int :: 0 <= j && j < len(c.routes) ==> routeWf(c.routes[j]))
+//@   && (forall i int, j int :: 0 <= i && i < j && j < len(c.routes) ==> c.routes[i].ref != c.routes[j].ref)
+//@   && (forall j int :: 0 <= j && j < len(c.blacklist) ==> c.blacklist[j] != nil && wfm(*c.blacklist[j]))
+//@   && (forall j int :: 0 <= j && j < len(c.aggregators) ==> c.aggregators[j] != nil)
+//@ pred (t *Table) wf() :=
+//@      typeIs(mkiface(t.config.valtag, t.config.valref), TableConfig) && confWf(t.conf())
+//@   && t.numIn != nil && t.numInvalid != nil && t.numOutOfOrder != nil && t.numBlacklist != nil && t.numUnroutable != nil
+//@   && t.numIn.tableOwned && t.numInvalid.tableOwned && t.numOutOfOrder.tableOwned && t.numBlacklist.tableOwned && t.numUnroutable.tableOwned
+//@   && t.numIn.ref != t.numInvalid.ref && t.numIn.ref != t.numOutOfOrder.ref && t.numIn.ref != t.numBlacklist.ref && t.numIn.ref != t.numUnroutable.ref
+//@   && t.numInvalid.ref != t.numOutOfOrder.ref && t.numInvalid.ref != t.numBlacklist.ref && t.numInvalid.ref != t.numUnroutable.ref
+//@   && t.numOutOfOrder.ref != t.numBlacklist.ref && t.numOutOfOrder.ref != t.numUnroutable.ref && t.numBlacklist.ref != t.numUnroutable.ref
+//@   && t.bad != nil
+//@ spec accepts(r Route, name bytes) := matchSpec(routeMatcher(r), name)
+
+// ---------------------------------------------------------------- DispatchAggregate (C01, C11)
+// Aggregation output goes to exactly the routes whose filter accepts its name, once each, and
+// touches nothing else of the pipeline: no validation, blacklist, rewriter or aggregator call,
+// no counter except "unroutable".
+//@ func (table *Table) DispatchAggregate(buf []byte)
+//@   property C01,C11
+//@   requires table.wf()
+//@   let c := table.conf()
+//@   let name := nameOf(buf[..])
+//@   modifies allof("calls:route.Route.Dispatch"), allof("chan#sent"), allof("ghost:metrics.Counter.count")
+//@   ensures[routes; C01,C11] forall j int :: 0 <= j && j < len(c.routes) ==>
+//@        calls(c.routes[j].Dispatch) == (accepts(c.routes[j], name) ? old(calls(c.routes[j].Dispatch)) ++ argsOf(buf) : old(calls(c.routes[j].Dispatch)))
+//@   ensures[no_other_route; C01] forall r ref :: (forall j int :: 0 <= j && j < len(c.routes) ==> c.routes[j].ref != r) ==>
+//@        callsOf("route.Route.Dispatch", r) == old(callsOf("route.Route.Dispatch", r))
+//@   ensures[unroutable; C01] table.numUnroutable.count == old(table.numUnroutable.count) +
+//@        ((exists j int :: 0 <= j && j < len(c.routes) && accepts(c.routes[j], name)) ? 0 : 1)
+//@   ensures[counters_quiet; C11] table.numIn.count == old(table.numIn.count) && table.numInvalid.count == old(table.numInvalid.count)
+//@        && table.numBlacklist.count == old(table.numBlacklist.count) && table.numOutOfOrder.count == old(table.numOutOfOrder.count)
+//@   loop 1:
+//@     invariant[idx]    0 <= #i && #i <= len(#s) && #s == c.routes
+//@     invariant[routed] routed == (exists j int :: 0 <= j && j < #i && accepts(c.routes[j], name))
+//@     invariant[done]   forall j int :: 0 <= j && j < #i ==>
+//@        calls(c.routes[j].Dispatch) == (accepts(c.routes[j], name) ? old(calls(c.routes[j].Dispatch)) ++ argsOf(buf) : old(calls(c.routes[j].Dispatch)))
+//@     invariant[todo]   forall j int :: #i <= j && j < len(c.routes) ==> calls(c.routes[j].Dispatch) == old(calls(c.routes[j].Dispatch))
+//@     invariant[others] forall r ref :: (forall j int :: 0 <= j && j < len(c.routes) ==> c.routes[j].ref != r) ==>
+//@        callsOf("route.Route.Dispatch", r) == old(callsOf("route.Route.Dispatch", r))
+//@     invariant[counters] forall k ref :: gh("metrics.Counter.tableOwned", k) ==> gh("metrics.Counter.count", k) == old(gh("metrics.Counter.count", k))
+//@     invariant[conf_kept] table.wf() && table.conf().routes == c.routes && buf == old(buf) && buf[..] == old(buf[..])
